@@ -226,6 +226,27 @@ func toParam(in string, df core.BStr) (s string, params []any, err error, pi *co
 	return
 }
 
+// translatePattern: * to %, ? to _ for the wild cards of a pattern; an escaped character (escaped
+// wild cards included) is not a wild card and travels as typed.
+func translatePattern(p string) string {
+	var sb strings.Builder
+	for i := 0; i < len(p); i++ {
+		switch {
+		case p[i] == '\\' && i+1 < len(p):
+			sb.WriteByte(p[i])
+			i++
+			sb.WriteByte(p[i])
+		case p[i] == '*':
+			sb.WriteByte('%')
+		case p[i] == '?':
+			sb.WriteByte('_')
+		default:
+			sb.WriteByte(p[i])
+		}
+	}
+	return sb.String()
+}
+
 // expectedParams: the query's values left to right, as Go values.
 func expectedParams(t *qast.Node) []any {
 	var out []any
@@ -240,7 +261,7 @@ func expectedParams(t *qast.Node) []any {
 			f, _ := strconv.ParseFloat(v.Text, 64)
 			out = append(out, f)
 		case qast.VWild:
-			out = append(out, strings.NewReplacer("*", "%", "?", "_").Replace(v.Text))
+			out = append(out, translatePattern(v.Text))
 		case qast.VWord:
 			out = append(out, qast.Unescape(v.Text))
 		default:
